@@ -31,6 +31,7 @@ type Obligation struct {
 	Top    bool            // clause marked as the property itself
 	Blk    *ssa.BasicBlock // block of the top-level function where the obligation arises (nil: end of function)
 	RetPos token.Pos       // the return statement whose epilogue raised the obligation
+	Prop   string          // property tag of the clause ("" = every property of the function)
 }
 
 type Enc struct {
